@@ -148,6 +148,12 @@ def templates(cfg):
         core = [s for s in seqs if len(s) == 1]
         rest = [s for s in seqs if len(s) > 1]
         seqs = core + rotated(rest, 70, cfg.seed)
+    else:
+        # thorough: every sequence of length <= 2 and a seed-rotated 1000 of the ~4800 of length 3
+        # (all of them would take hours at 4 rows per table; the seed walks through them)
+        core = [s for s in seqs if len(s) <= 2]
+        rest = [s for s in seqs if len(s) > 2]
+        seqs = core + rotated(rest, 1000, cfg.seed)
     for seq in seqs:
         out.append(Template("c02.s." + "-".join(seq), T_I3, chain(*[STEPS[s] for s in seq]), props=("C02",)))
     return out
